@@ -1,0 +1,8 @@
+//go:build !verif
+
+// Package vhook provides named no-op points that a verification harness can
+// observe. Without the "verif" build tag every call compiles to nothing.
+package vhook
+
+// At does nothing.
+func At(string) {}
